@@ -500,6 +500,12 @@ func runC01(p *core.Prog, r *core.Report, tier string) {
 	}
 
 	// ---- (h) strategy-level filter ----
+	checkAttestationDataStrategyFilter(p, r, ds, "C01.h")
+}
+
+// checkAttestationDataStrategyFilter: the best/majority attestation-data strategies forward a response only under
+// data != nil, target != nil and target epoch == epoch of the requested slot.
+func checkAttestationDataStrategyFilter(p *core.Prog, r *core.Report, ds *core.Describer, ruleID string) {
 	nW := 0
 	for _, rel := range []string{"strategies/attestationdata/best", "strategies/attestationdata/majority"} {
 		for _, f := range p.FuncsIn(rel) {
@@ -526,7 +532,7 @@ func runC01(p *core.Prog, r *core.Report, tier string) {
 					})
 				}
 				w := core.Unguarded(ds, f, nil, func(x ssa.Instruction) bool { return x == in }, relGuard(tgtE, reqEpoch, map[string]bool{"==": true}))
-				r.Check(w == nil, "C01.h", construct+"|target-epoch", p.Pos(in.Pos()), "response forwarded only when target epoch == epoch of the requested slot", "a response can be forwarded without target epoch == SlotToEpoch(opts.Slot) having been established", p.WitnessText(w)...)
+				r.Check(w == nil, ruleID, construct+"|target-epoch", p.Pos(in.Pos()), "response forwarded only when target epoch == epoch of the requested slot", "a response can be forwarded without target epoch == SlotToEpoch(opts.Slot) having been established", p.WitnessText(w)...)
 				// target != nil and data != nil
 				for _, nf := range []struct {
 					name string
@@ -558,7 +564,7 @@ func runC01(p *core.Prog, r *core.Report, tier string) {
 						}
 						return -1
 					})
-					r.Check(w == nil, "C01.h", construct+"|"+nf.name, p.Pos(in.Pos()), nf.name+" established before forwarding", "a response can be forwarded without "+nf.name, p.WitnessText(w)...)
+					r.Check(w == nil, ruleID, construct+"|"+nf.name, p.Pos(in.Pos()), nf.name+" established before forwarding", "a response can be forwarded without "+nf.name, p.WitnessText(w)...)
 				}
 			})
 		}
